@@ -62,6 +62,9 @@ pub enum Op {
     /// 18..40 alternating pause / resume commands queued at once (ends resumed), as a client that
     /// issues commands while the accept thread is busy produces them
     CtlBurst { n: u8 },
+    /// 130..329 clients connect to listener `l` at once (only with a limit that can take them all;
+    /// otherwise a single connect): more than any accept batch could hold
+    ConnectBurst { l: u16, n: u8 },
 }
 
 #[derive(Clone, Debug, Serialize, Deserialize, PartialEq)]
@@ -171,6 +174,8 @@ struct Model {
     pair_barrier: usize,
     pair_checked: u32,
     pair_after_restart: u32,
+    /// deliveries whose socket was not the one connected at that position (accept-queue order)
+    kernel_reorders: u32,
 }
 
 pub fn trace_on() -> bool {
@@ -287,7 +292,21 @@ impl Model {
                     self.flag(Prop::C01, "C01/wrong-token", format!("connection {} arrived on listener {} but carries token {}", id, self.conns[id].listener, p.token));
                 }
                 if ident != self.conns[id].ident {
-                    self.flag(Prop::C01, "C01/wrong-connection", format!("worker {} expected connection {} ({}) next, received {}", w, id, self.conns[id].ident, ident));
+                    // The kernel does not promise that a listener's accept queue is in connect()
+                    // order (the client thread may change CPU between two connects): a connection
+                    // of the same listener that nobody has received yet is the same thing to the
+                    // model, the two records swap their sockets.
+                    let other = self.conns.iter().position(|c| c.ident == ident);
+                    match other {
+                        Some(o) if self.conns[o].listener == self.conns[id].listener && matches!(self.conns[o].state, CState::Backlog | CState::Queued) => {
+                            let (a, b) = if o < id { (o, id) } else { (id, o) };
+                            let (left, right) = self.conns.split_at_mut(b);
+                            std::mem::swap(&mut left[a].ident, &mut right[0].ident);
+                            std::mem::swap(&mut left[a]._sock, &mut right[0]._sock);
+                            self.kernel_reorders += 1;
+                        }
+                        _ => self.flag(Prop::C01, "C01/wrong-connection", format!("worker {} expected connection {} ({}) next, received {}", w, id, self.conns[id].ident, ident)),
+                    }
                 }
                 if self.conns[id].state != CState::Queued {
                     self.flag(Prop::C01, "C01/duplicate", format!("connection {} delivered in state {:?}", id, self.conns[id].state));
@@ -403,6 +422,8 @@ impl Engine {
             match k {
                 LKind::Tcp => {
                     let l = std::net::TcpListener::bind("127.0.0.1:0")?;
+                    // room for a few hundred pending connections (bursts while paused)
+                    socket2::SockRef::from(&l).listen(1024)?;
                     addrs.push(LAddr::Tcp(l.local_addr()?));
                     listeners.push(Listener::Tcp(l));
                 }
@@ -410,6 +431,7 @@ impl Engine {
                     let p = uds_path();
                     let _ = std::fs::remove_file(&p);
                     let l = std::os::unix::net::UnixListener::bind(&p)?;
+                    socket2::SockRef::from(&l).listen(1024)?;
                     addrs.push(LAddr::Uds(p));
                     listeners.push(Listener::Uds(l));
                 }
@@ -441,6 +463,7 @@ impl Engine {
             pair_barrier: 0,
             pair_checked: 0,
             pair_after_restart: 0,
+            kernel_reorders: 0,
             rr_checked: 0,
             zombie_finished: false,
         };
@@ -704,6 +727,22 @@ impl Engine {
         }
         match op {
             Op::Connect { l } => self.connect(vcore::pick(l, nl)),
+            Op::ConnectBurst { l, n } => {
+                let l = vcore::pick(l, nl);
+                let big = { let m = self.model.borrow(); m.limit >= 1000 && m.conns.len() < 400 };
+                if big {
+                    let count = 130 + (n as usize % 200);
+                    for _ in 0..count {
+                        self.connect(l);
+                    }
+                    self.label("connect-burst");
+                    if count > 256 {
+                        self.label("connect-burst>256");
+                    }
+                } else {
+                    self.connect(l);
+                }
+            }
             Op::ConnectRace { l } => {
                 self.connect(vcore::pick(l, nl));
                 self.model.borrow_mut().races_left += 1;
@@ -1035,6 +1074,7 @@ async fn run_async(c: &Case, prop: Prop) -> CaseResult {
     obs.label_if(m.conns.len() >= 3, "conns>=3");
     obs.label_if(m.workers.iter().any(|s| s.reported > 0), "fault-discovered");
     obs.label_if(m.pair_checked > 0, "pair-rule-checked");
+    obs.label_if(m.kernel_reorders > 0, "accept-queue-not-in-connect-order");
     obs.label_if(m.pair_after_restart > 0, "pair-rule-after-restart");
     obs.label_if(m.conns.iter().any(|c| c.state == CState::DroppedNoWorkers), "dropped-no-workers");
     obs.label_if(c.listeners.contains(&LKind::Uds), "uds");
